@@ -1,2 +1,70 @@
-(** Theorems for C05: filled in below as the proofs land. *)
-From JL Require Import Base.Json.
+(** * C05: if / ?: / and / or select and evaluate only the deciding operands.
+    Statements only; proofs are in Proofs/Logic.v and Proofs/Tables.v. *)
+From Coq Require Import List String NArith.
+Local Open Scope string_scope.
+From JL Require Import Base.Json Base.Lits Base.Monad Model.Ops Model.Table Gen.OpTable Model.Eval.
+From JL Require Import Spec.Specs Spec.OpSpecs Proofs.Logic Proofs.Tables.
+Import ListNotations.
+
+(** For every parser P and evaluator E (hence for the real ones), the model's fold-based
+    operators are the three-line recursive specifications. *)
+Theorem C05_if_is_spec :
+  forall (parsed : Type) (P : value -> outcome parsed) (E : parsed -> value -> M value) d args,
+    if_ parsed P E d args = if_spec (pe parsed P E) d args.
+Proof. exact if_is_spec. Qed.
+Print Assumptions C05_if_is_spec.
+
+Theorem C05_or_is_spec :
+  forall (parsed : Type) (P : value -> outcome parsed) (E : parsed -> value -> M value) d args,
+    or_ parsed P E d args = or_spec (pe parsed P E) d args.
+Proof. exact or_is_spec. Qed.
+Print Assumptions C05_or_is_spec.
+
+Theorem C05_and_is_spec :
+  forall (parsed : Type) (P : value -> outcome parsed) (E : parsed -> value -> M value) d args,
+    and_ parsed P E d args = and_spec (pe parsed P E) d args.
+Proof. exact and_is_spec. Qed.
+Print Assumptions C05_and_is_spec.
+
+(** Non-evaluation, stated without traces: once a condition is truthy, the operands after its
+    branch cannot influence anything (value, error, log); an untaken branch cannot either. *)
+Theorem C05_if_ignores_rest :
+  forall parsed P E d c b rest rest' t v,
+    pe parsed P E c d = (t, Ok v) -> truthy_spec v = true ->
+    if_ parsed P E d (c :: b :: rest) = if_ parsed P E d (c :: b :: rest').
+Proof. exact if_ignores_rest. Qed.
+Print Assumptions C05_if_ignores_rest.
+
+Theorem C05_if_skips_untaken_branch :
+  forall parsed P E d c b b' rest t v,
+    pe parsed P E c d = (t, Ok v) -> truthy_spec v = false ->
+    if_ parsed P E d (c :: b :: rest) = if_ parsed P E d (c :: b' :: rest).
+Proof. exact if_skips_untaken_branch. Qed.
+Print Assumptions C05_if_skips_untaken_branch.
+
+Theorem C05_or_ignores_rest :
+  forall parsed P E d a b rest b' rest' t v,
+    pe parsed P E a d = (t, Ok v) -> truthy_spec v = true ->
+    or_ parsed P E d (a :: b :: rest) = or_ parsed P E d (a :: b' :: rest').
+Proof. exact or_ignores_rest. Qed.
+Print Assumptions C05_or_ignores_rest.
+
+Theorem C05_and_ignores_rest :
+  forall parsed P E d a b rest b' rest' t v,
+    pe parsed P E a d = (t, Ok v) -> truthy_spec v = false ->
+    and_ parsed P E d (a :: b :: rest) = and_ parsed P E d (a :: b' :: rest').
+Proof. exact and_ignores_rest. Qed.
+Print Assumptions C05_and_ignores_rest.
+
+(** `?:` is bound to the same function as `if` in the table generated from the source. *)
+Theorem C05_ternary_is_if :
+  forall parsed P E,
+    option_map l_fn (lookup l_key (lazy_table parsed P E) (lit "?:")) =
+    option_map l_fn (lookup l_key (lazy_table parsed P E) (lit "if")).
+Proof. exact ternary_is_if. Qed.
+Print Assumptions C05_ternary_is_if.
+
+(** Non-vacuity: a concrete evaluation in which the second operand is poisoned and never reached. *)
+Example C05_nonvacuous :
+  snd (apply (Obj [(lit "or", Arr [Bool true; Obj [(lit "==", Arr [Num (PosInt 1%N)])]])]) Null) = Ok (Bool true).
+Proof. vm_compute. reflexivity. Qed.
